@@ -69,6 +69,10 @@ func (t *Transfer) In(q *Msg, a string) (env chan *Envelope, err error) {
 		}
 	}
 
+	// A new transfer starts a new TSIG chain, whatever an earlier transfer
+	// with this Transfer left behind.
+	t.tsigRequestMAC, t.tsigTimersOnly = "", false
+
 	if err := t.WriteMsg(q); err != nil {
 		return nil, err
 	}
